@@ -8,7 +8,10 @@
     history prefix is outside K, running and fresh answers must agree. *)
 From stdpp Require Import gmap list numbers.
 From Coq Require Import ZArith NArith.
-From Verif Require Import Addr.MemDisk.
+From Verif Require Import Addr.MemDisk Generated.AddrCache.
+
+(** The model parameter takes the value the source has now. *)
+Definition rb : bool := next_caches_read_back.
 
 Record txobs := {
   to_outs : list ans;     (* per operation, as the implementation returned *)
@@ -38,9 +41,9 @@ Fixpoint check_txs (i : nat) (pre_k : bool) (l : list (txn * txobs)) (s : state)
   match l with
   | [] => []
   | (x, o) :: r =>
-      let '(s1, (outs, qa)) := run_tx x s in
+      let '(s1, (outs, qa)) := run_tx rb x s in
       let fresh := (run_queries (tx_queries x) (disk_of s1) (reopen (disk_of s1))).2 in
-      let k := pre_k || tx_k x in
+      let k := pre_k || tx_k rb x in
       (if ans_list_eqb outs (to_outs o) then [] else [(i, 1%nat)]) ++
       (if ans_list_eqb qa (to_run o) then [] else [(i, 2%nat)]) ++
       (if ans_list_eqb fresh (to_fresh o) then [] else [(i, 3%nat)]) ++
@@ -83,7 +86,7 @@ Fixpoint model_divergences (i : nat) (l : list txn) (s : state) : list nat :=
   match l with
   | [] => []
   | x :: r =>
-      let '(s1, (_, qa)) := run_tx x s in
+      let '(s1, (_, qa)) := run_tx rb x s in
       let fresh := (run_queries (tx_queries x) (disk_of s1) (reopen (disk_of s1))).2 in
       (if ans_list_eqb qa fresh then [] else [i]) ++ model_divergences (S i) r s1
   end.
